@@ -483,6 +483,8 @@ def run_case(case):
             variants.append(('add-constant', pars, {'fdat': lambda x: x + 3.0}, 1e-8, 1.0, None))
             variants.append(('scale:-3', pars, {'fdat': lambda x: x * -3.0}, 1e-10, 3.0, None))
             variants.append(('scale:0.5', pars, {'fdat': lambda x: x * 0.5}, 1e-10, 0.5, None))
+            variants.append(('scale:1e-17', pars, {'fdat': lambda x: x * 1e-17}, 1e-10, 1e-17, None))
+            variants.append(('scale:-1e20', pars, {'fdat': lambda x: x * -1e20}, 1e-10, 1e20, None))
         # call history across objects: a 'twin' with the same chains, the same first / last configuration, number of configurations
         # and spacing but one interior configuration moved into a hole is analysed after the base object; it must agree with
         # its own relabelled copy (a=2), and the base object analysed again afterwards must agree with its first analysis
